@@ -757,6 +757,120 @@ func checkMakeSizes(p *an.Prog, r *an.Run, fns []*ssa.Function, scope map[*ssa.F
 		}
 		return false
 	}
+	// bounded: the size is made of quantities the process already holds (lengths, counts, constants) or is capped by
+	// one on the way to the make — a count taken from a request (directly, or request + len(...), which also overflows)
+	// lets one message ask for an allocation of any size: "makeslice: cap out of range" panics, smaller absurd sizes
+	// abort the process with out-of-memory.
+	relsOnEdge := func(pred, succ *ssa.BasicBlock) []ctrlRel {
+		out := ctrlRels(pred)
+		if len(pred.Instrs) > 0 {
+			if iff, ok := pred.Instrs[len(pred.Instrs)-1].(*ssa.If); ok && len(pred.Succs) == 2 && pred.Succs[0] != pred.Succs[1] {
+				for i, sc := range pred.Succs {
+					if sc == succ {
+						if rel, ok := an.BranchRel(iff, i); ok {
+							out = append(out, ctrlRel{rel, iff, i})
+						}
+					}
+				}
+			}
+		}
+		return out
+	}
+	var bounded func(v ssa.Value, rels []ctrlRel, depth int, seen map[ssa.Value]bool) bool
+	bounded = func(v ssa.Value, rels []ctrlRel, depth int, seen map[ssa.Value]bool) bool {
+		if seen[v] {
+			return true
+		}
+		seen[v] = true
+		if _, ok := an.ConstInt(v); ok {
+			return true
+		}
+		if _, ok := an.LenOf(v); ok {
+			return true
+		}
+		// capped on the way: v <= B or v < B with B bounded
+		for _, cr := range rels {
+			if cr.Kind != "int" {
+				continue
+			}
+			if cr.L == v && (cr.Op == token.LEQ || cr.Op == token.LSS) && bounded(cr.R, nil, depth, map[ssa.Value]bool{}) {
+				return true
+			}
+			if cr.R == v && (cr.Op == token.GEQ || cr.Op == token.GTR) && bounded(cr.L, nil, depth, map[ssa.Value]bool{}) {
+				return true
+			}
+		}
+		switch x := v.(type) {
+		case *ssa.Call:
+			if b, ok := x.Call.Value.(*ssa.Builtin); ok && (b.Name() == "len" || b.Name() == "cap" || b.Name() == "min") {
+				if b.Name() == "min" {
+					for _, a := range x.Call.Args {
+						if bounded(a, rels, depth, seen) {
+							return true
+						}
+					}
+					return false
+				}
+				return true
+			}
+			if f := an.CallObj(x); f != nil && (f.Name() == "NumIn" || f.Name() == "NumOut" || f.Name() == "NumMethod" || f.Name() == "Len") {
+				return true
+			}
+		case *ssa.BinOp:
+			switch x.Op {
+			case token.ADD, token.SUB, token.MUL:
+				return bounded(x.X, rels, depth, seen) && bounded(x.Y, rels, depth, seen)
+			case token.QUO, token.REM, token.SHR, token.AND:
+				return bounded(x.X, rels, depth, seen)
+			}
+		case *ssa.Convert:
+			return bounded(x.X, rels, depth, seen)
+		case *ssa.ChangeType:
+			return bounded(x.X, rels, depth, seen)
+		case *ssa.Phi:
+			for i, e := range x.Edges {
+				if e == ssa.Value(x) {
+					continue
+				}
+				if !bounded(e, relsOnEdge(x.Block().Preds[i], x.Block()), depth, seen) {
+					return false
+				}
+			}
+			return true
+		case *ssa.Parameter:
+			if depth <= 0 {
+				return false
+			}
+			fn := x.Parent()
+			idx := -1
+			for i, prm := range fn.Params {
+				if prm == x {
+					idx = i
+				}
+			}
+			sites := 0
+			for caller := range scope {
+				for _, c := range an.Calls(caller, false) {
+					for _, cal := range p.CalleesAt(c) {
+						if cal != fn {
+							continue
+						}
+						sites++
+						args := c.Common().Args
+						ai := idx
+						if c.Common().IsInvoke() {
+							ai = idx - 1
+						}
+						if ai < 0 || ai >= len(args) || !bounded(args[ai], ctrlRels(c.Block()), depth-1, map[ssa.Value]bool{}) {
+							return false
+						}
+					}
+				}
+			}
+			return sites > 0
+		}
+		return false
+	}
 	for _, fn := range fns {
 		an.AllInstrs(fn, func(in ssa.Instruction) {
 			var sizes []ssa.Value
@@ -783,11 +897,14 @@ func checkMakeSizes(p *an.Prog, r *an.Run, fns []*ssa.Function, scope map[*ssa.F
 				if !nonNeg(s, in, 2) {
 					bad = append(bad, "make in "+an.FuncName(fn)+" at "+p.Pos(in.Pos())+" has a size that is not provably non-negative for every network input (a negative size panics)")
 				}
+				if !bounded(s, ctrlRels(in.Block()), 2, map[ssa.Value]bool{}) {
+					bad = append(bad, "make in "+an.FuncName(fn)+" at "+p.Pos(in.Pos())+" is sized by a number that is not bounded by anything the process holds (a count taken from a request): one message can demand an allocation of any size (makeslice panic / out of memory)")
+				}
 			}
 		})
 	}
 	r.Floor("make-sites", n, 10)
-	r.Check(len(bad) == 0, "make", "scope", token.NoPos, "every non-constant make size in scope is a len, a sum of non-negatives, or guarded > 0 at each call site", "%s", strings.Join(dedup(bad), "; "))
+	r.Check(len(bad) == 0, "make", "scope", token.NoPos, "every non-constant make size in scope is non-negative and bounded by lengths/constants (or capped by one) at each call site", "%s", strings.Join(dedup(bad), "; "))
 }
 
 func checkNilMaps(p *an.Prog, r *an.Run, fns []*ssa.Function) {
